@@ -6,6 +6,8 @@
 
   * The file is a byte list; `fgets(buf, MAX_LINESIZE, fp)` is `fgets`: at most `MAX_LINESIZE − 1`
     bytes, up to and including the first `\n`; the C string in `buf` ends at the first NUL byte.
+    The rest of a line that does not fit is consumed (`drain`): one physical line = one line number;
+    a comment of any length is ignored, any other over-long line is the error "Line is too long.".
   * The tokenizer works on the RAW buffer `data = strdup(sp)` (`sp ++ [0]`) with the two cursors
     `wp1`, `wp2` as indexes; every read is `rd`, every write `wr`/`memmoveUp` (checked): a read or
     write outside the `strlen + 1` bytes is `.error .oob`.
@@ -218,6 +220,15 @@ def fgets (inp : Bytes) : Option (Bytes × Bytes) :=
     let n := if ln.length < lim.length then ln.length + 1 else ln.length
     some (inp.take n, inp.drop n)
 
+/-- after `fgets`: when the buffer is full (`strlen(buf) == MAX_LINESIZE − 1`) and does not end with a
+    newline, the rest of the line is read and discarded (`fgetc` up to and including `\n`, or to the
+    end of the file). Result: what is left of the file, and `toolong` = at least one byte of the line
+    did not fit. `s` is the C string in `buf`, `rest0` the file behind what `fgets` consumed. -/
+def drain (s rest0 : Bytes) : Bytes × Bool :=
+  if s.length = maxLineSize - 1 ∧ s.getLast? ≠ some 10 then
+    ((rest0.dropWhile (· != 10)).drop 1, !(rest0.takeWhile (· != 10)).isEmpty)
+  else (rest0, false)
+
 /-- the type of argument `j` (1-based): 0 str, 1 int, 2 float, 3 bool; only the first
     `MAX_TYPECHECK` arguments have individual flags -/
 def argType (take j : Nat) : Nat :=
@@ -344,10 +355,13 @@ def parseInline (cfg : Cfg) : (fuel : Nat) → (sectionid : Nat) → (parent : O
       match parent with
       | some p => .ok (st, .err st.lineno (str "<" ++ p.argv.headD [] ++ str "> section was not closed."))
       | none => .ok (st, .count optcount)
-    | some (chunk, rest) =>
-      let st := { st with input := rest, lineno := st.lineno + 1 }
+    | some (chunk, rest0) =>
+      let dr := drain (chunk.takeWhile (· != 0)) rest0
+      let st := { st with input := dr.1, lineno := st.lineno + 1 }
       let buf := Str.trim (chunk.takeWhile (· != 0))
-      if buf = [] || buf.head? == some 35 then
+      -- a comment can have any length, other lines must fit into the buffer
+      if dr.2 && buf.head? != some 35 then .ok (st, .err st.lineno (str "Line is too long."))
+      else if buf = [] || buf.head? == some 35 then
         parseInline cfg fuel sectionid parent optcount newsectionid st
       else
         match brackets buf with
